@@ -125,4 +125,59 @@ func init() {
 		})
 		return fmt.Sprintf("def %s : Bool := %v", f.Lean, total > 0 && total == good), nil
 	})
+	// lockOps counts the calls <mutex>.Lock/Unlock/RLock/RUnlock anywhere inside the function.
+	lockOps := func(fset *token.FileSet, fd *ast.FuncDecl, mutex string) int {
+		n := 0
+		ast.Inspect(fd, func(nd ast.Node) bool {
+			c, ok := nd.(*ast.CallExpr)
+			if !ok {
+				return true
+			}
+			switch exprString(fset, c.Fun) {
+			case mutex + ".Lock", mutex + ".Unlock", mutex + ".RLock", mutex + ".RUnlock":
+				n++
+			}
+			return true
+		})
+		return n
+	}
+	// no_lock_ops: the function never locks or unlocks <mutex> itself (it runs entirely under its caller's lock).
+	Register("no_lock_ops", func(repo string, f Fact) (string, error) {
+		fset, fd, err := findFunc(repo, f.File, f.Func)
+		if err != nil {
+			return "", err
+		}
+		return fmt.Sprintf("def %s : Bool := %v", f.Lean, lockOps(fset, fd, f.Mutex) == 0), nil
+	})
+	// lock_to_end: somewhere at the top level of the body stands `<mutex>.Lock()` directly followed by
+	// `defer <mutex>.Unlock()`; these are the only lock operations of the function; and none of the texts in
+	// args.guarded (comma separated) occurs in the statements before the Lock.  I.e. everything that touches the
+	// guarded state runs in one critical section that lasts until the function returns.
+	Register("lock_to_end", func(repo string, f Fact) (string, error) {
+		fset, fd, err := findFunc(repo, f.File, f.Func)
+		if err != nil {
+			return "", err
+		}
+		ok := false
+		if fd.Body != nil {
+			for i := 0; i+1 < len(fd.Body.List); i++ {
+				s0, ok0 := fd.Body.List[i].(*ast.ExprStmt)
+				s1, ok1 := fd.Body.List[i+1].(*ast.DeferStmt)
+				if !ok0 || !ok1 || exprString(fset, s0.X) != f.Mutex+".Lock()" || exprString(fset, s1.Call) != f.Mutex+".Unlock()" {
+					continue
+				}
+				ok = lockOps(fset, fd, f.Mutex) == 2
+				for _, st := range fd.Body.List[:i] {
+					txt := exprString(fset, st)
+					for _, g := range strings.Split(f.Args["guarded"], ",") {
+						if g != "" && strings.Contains(txt, g) {
+							ok = false
+						}
+					}
+				}
+				break
+			}
+		}
+		return fmt.Sprintf("def %s : Bool := %v", f.Lean, ok), nil
+	})
 }
